@@ -1,7 +1,12 @@
 //! rdbmon — runtime monitors for raindb. One process runs one shard of one property's cases and
 //! writes one JSON line per case; the `check` driver fans shards out and merges.
 
+mod dbutil;
+mod director;
+mod gen;
+mod history;
 mod props;
+mod session;
 mod report;
 mod rng;
 mod simfs;
